@@ -667,7 +667,7 @@ static void random_cfg(struct cfg *c)
 	c->a500 = vrng_chance(25);
 	for (i = 0; i < XMP_MAX_CHANNELS; i++)
 		c->mute[i] = vrng_chance(10);
-	/* optional overrides (part of the replay record): C14_INTERP, C14_RATE */
+	/* optional overrides (part of the replay record): C14_INTERP, C14_RATE (and C14_A500, C14_POS below) */
 	if (getenv("C14_INTERP") != NULL)
 		c->interp = atoi(getenv("C14_INTERP"));
 	if (getenv("C14_RATE") != NULL)
@@ -713,6 +713,7 @@ static int mode_tie(uint64_t seed, int nframes, const char *path, int lowrate)
 		c.rate = XMP_MIN_SRATE;
 		c.a500 = 1;
 	}
+	env_overrides_late(&c);
 	len = module_len(path);
 	if (len <= 0) {
 		printf("skip %s\n", path);
@@ -1014,6 +1015,8 @@ static long mode_solosum(uint64_t seed, int nframes, const char *path, int a500,
 		return -1;
 	}
 	c.startpos = vrng_chance(60) ? 0 : (int)vrng_below(len);
+	if (getenv("C14_POS") != NULL)
+		c.startpos = atoi(getenv("C14_POS"));
 
 	x = xmp_create_context();
 	if (xmp_load_module(x, path) < 0) {
@@ -1133,6 +1136,7 @@ static int mode_sep(uint64_t seed, int nframes, const char *path)
 	random_cfg(&c);
 	c.fmt = 0;	/* 16-bit signed stereo */
 	c.a500 = vrng_chance(15);
+	env_overrides_late(&c);
 	for (i = 0; i < XMP_MAX_CHANNELS; i++)
 		c.mute[i] = 0;
 	c.mix = vrng_chance(45) ? 100 : vrng_range(1, 100);
@@ -1142,6 +1146,8 @@ static int mode_sep(uint64_t seed, int nframes, const char *path)
 		return 0;
 	}
 	c.startpos = vrng_chance(60) ? 0 : (int)vrng_below(len);
+	if (getenv("C14_POS") != NULL)
+		c.startpos = atoi(getenv("C14_POS"));
 	cn = c;
 	cn.mix = -c.mix;
 	c0 = c;
